@@ -18,7 +18,7 @@ counterexample (model, to be replayed without proxies), or inconclusive
 import time, math, itertools, fractions, numbers, re
 import z3
 
-__all__ = ['Explorer','SymInt','SymReal','SymBool','SymFP','SymBV','Inconclusive','Violation',
+__all__ = ['Explorer','SymInt','SymReal','SymBool','SymFP','SymFPR','SymBV','Inconclusive','Violation',
            'ConcreteSym','unwrap','is_sym','discover_prefixes','collect','to_smt2','And','Or','Not','Implies','ite']
 
 class Inconclusive(Exception):
@@ -424,6 +424,56 @@ class SymFP(_Sym):
     __ge__ = _c(z3.fpGEQ)
     __hash__ = _Sym.__hash__
 
+class SymFPR(_Sym):
+    """Standard model of binary64 arithmetic over the reals: every operation returns exact*(1+e)+n with fresh |e|<=2^-53, |n|<=2^-1075
+    (sound over-approximation of IEEE round-to-nearest while no overflow occurs). Used where bit-blasting does not finish."""
+    __slots__ = ()
+    _k = [0]
+    U = fractions.Fraction(1, 2**53); N = fractions.Fraction(1, 2**1075)
+    def __init__(self, t): self.t = t
+    @property
+    def __class__(self): return float
+    @classmethod
+    def _rnd(cls, exact):
+        cls._k[0] += 1
+        e = z3.Real(f'__e{cls._k[0]}'); n = z3.Real(f'__n{cls._k[0]}')
+        EX.vars[f'__e{cls._k[0]}'] = e; EX.vars[f'__n{cls._k[0]}'] = n
+        EX._add(z3.And(e >= -_realval(cls.U), e <= _realval(cls.U), n >= -_realval(cls.N), n <= _realval(cls.N)))
+        return SymFPR(exact*(1+e)+n)
+    def _c(self, o):
+        if isinstance(o, SymFPR): return o.t
+        if isinstance(o, (int,float)) and not isinstance(o,bool): return _realval(o)
+        if isinstance(o, SymInt): return z3.ToReal(o.t)
+        return None
+    def __mul__(self,o):
+        b=self._c(o); return NotImplemented if b is None else SymFPR._rnd(self.t*b)
+    __rmul__=__mul__
+    def __add__(self,o):
+        b=self._c(o); return NotImplemented if b is None else SymFPR._rnd(self.t+b)
+    __radd__=__add__
+    def __sub__(self,o):
+        b=self._c(o); return NotImplemented if b is None else SymFPR._rnd(self.t-b)
+    def __rsub__(self,o):
+        b=self._c(o); return NotImplemented if b is None else SymFPR._rnd(b-self.t)
+    def __truediv__(self,o):
+        b=self._c(o); return NotImplemented if b is None else SymFPR._rnd(self.t/b)
+    def __neg__(self): return SymFPR(-self.t)
+    def __round__(self, n=None):
+        SymFPR._k[0] += 1
+        r = z3.Int(f'__r{SymFPR._k[0]}'); EX.vars[f'__r{SymFPR._k[0]}'] = r
+        EX._add(z3.And(z3.ToReal(r)-self.t <= _realval(fractions.Fraction(1,2)), self.t-z3.ToReal(r) <= _realval(fractions.Fraction(1,2))))
+        return SymFPR(z3.ToReal(r))          # integral, exactly representable below 2^53
+    def is_integer(self): return _mkbool(z3.simplify(z3.IsInt(self.t)))
+    def _cmpop(op):
+        def f(self,o):
+            b=self._c(o)
+            return NotImplemented if b is None else _mkbool(z3.simplify(op(self.t,b)))
+        return f
+    __eq__=_cmpop(lambda a,b:a==b); __ne__=_cmpop(lambda a,b:a!=b); __lt__=_cmpop(lambda a,b:a<b)
+    __le__=_cmpop(lambda a,b:a<=b); __gt__=_cmpop(lambda a,b:a>b); __ge__=_cmpop(lambda a,b:a>=b)
+    __hash__ = _Sym.__hash__
+    def concretize(self): return float(EX.concretize(self.t))
+
 class SymBV(_Sym):
     """Fixed-width unsigned bit-vector standing in for a bounded Python int."""
     __slots__ = ('w',)
@@ -676,6 +726,9 @@ class Explorer:
     def fp(self, name):
         return SymFP(self._declare(name, z3.FP(name, F64)))
 
+    def fpr(self, name):
+        return SymFPR(self._declare(name, z3.Real(name)))
+
     def bv(self, name, width, lo=None, hi=None):
         v = self._declare(name, z3.BitVec(name, width))
         if lo is not None: self._add(z3.UGE(v, lo))
@@ -907,6 +960,7 @@ class ConcreteSym:
         return float(v)
     def bool(self, name): return bool(self._get(name, False))
     def fp(self, name): return float(self._get(name, 0.0))
+    def fpr(self, name): return float(self._get(name, 0.0))
     def bv(self, name, width, lo=None, hi=None): return int(self._get(name, lo or 0))
     def choice(self, name, options):
         options = list(options)
